@@ -685,6 +685,44 @@ def family(name):
         return SymNet(4, wiring={0: (0, 1), 1: (0, 1), 2: (1, 2, 3), 3: (2, 3)})
     if name == "R4":       # ring with self-loops: each depends on itself and predecessor
         return SymNet(4, wiring={0: (0, 3), 1: (1, 0), 2: (2, 1), 3: (3, 2)})
+    if name == "U3sym":
+        # 3 variables, solver-constrained so that some variable w is forced to 1 by two *different* valuations of
+        # the same pair (u,v) (u != v): symmetric driver sets - the shape on which orderings of equal-key items matter
+        net = SymNet(3)
+        alts = []
+        for w in range(3):
+            u, v = [i for i in range(3) if i != w]
+            cs = []
+            for x in net.states:
+                if x[u] != x[v] or x[w] == 1:
+                    cs.append(net.F[w][x])
+            cs.append(fOr([fNot(net.F[w][x]) for x in net.states if x[u] == x[v] and x[w] == 0]))
+            # ... and w = 0 can persist (some trap space has w = 0), so reaching w = 1 needs an intervention
+            cs.append(fOr([net.trap(S) for S in net.subspaces if S[w] == 0]))
+            alts.append(fAnd(cs))
+        net.family_constraints.append(fOr(alts))
+        return net
+    if name == "SYM4":
+        # a,b <- (self, c);  c <- (a,b,c,d);  d <- (c): constrained so that {c,d} = 1 is a two-variable motif that both
+        # valuations a != b force, while c = d = 0 can persist: symmetric two-variable driver sets
+        net = SymNet(4, wiring={0: (0, 2), 1: (1, 2), 2: (0, 1, 2, 3), 3: (2,)})
+        cs = []
+        for x in net.states:
+            cs.append(net.F[3][x] if x[2] else fNot(net.F[3][x]))          # d follows c
+            if x[0] != x[1] or x[3] == 1:
+                cs.append(net.F[2][x])
+        # c alone is not self-sustaining, so the stable motif is the pair {c, d}
+        cs.append(fOr([fNot(net.F[2][x]) for x in net.states if x[2] == 1 and x[3] == 0 and x[0] == x[1]]))
+        cs.append(fOr([net.trap(S) for S in net.subspaces if S[2] == 0 and S[3] == 0]))
+        net.family_constraints += cs
+        return net
+    if name == "N3":
+        # 3 variables, every variable negatively auto-regulated somewhere (maximal negative feedback vertex sets)
+        net = SymNet(3)
+        E = (None,) * 3
+        for v in range(3):
+            net.family_constraints.append(net.reg(v, v, E)[1])
+        return net
     if name.startswith("P:"):
         # product of named component families, e.g. P:U3+SW2 ; component tags keep the bits apart
         comps = []
